@@ -21,18 +21,18 @@ Section HistoryFull.
   (* append_keeps in terms of decode: a decodable embedded kernel stays decodable after one more append, with
      the same function *)
   Theorem append_keeps_decode g g' G G' :
-    pe_wf G = true -> kernel_ok g = true -> plain_pe G = true -> plain_pe g' = true -> pdata g = pdata G ->
+    pe_wf G = true -> kernel_ok g = true -> pdata g = pdata G ->
     embeds g G -> append g' G = Some G' ->
     exists sw', decode G' g = Some sw' /\ embeds g G' /\
                 forall ins v swg, eval_pe opsem g swg ins = Some v -> eval_pe opsem G' sw' ins = Some v.
   Proof.
-    intros Hwf Hk HpG Hpg' Hpd Hemb Ha.
-    unfold kernel_ok in Hk. rewrite !andb_true_iff in Hk. destruct Hk as [[Hc Hn] Hp].
+    intros Hwf Hk Hpd Hemb Ha.
+    unfold kernel_ok in Hk. rewrite !andb_true_iff in Hk. destruct Hk as [Hc Hn].
     destruct (append_embeds g' G G' Ha) as (Hm & _ & Hd).
     pose proof (append_pe_wf g' G G' Hwf Ha) as Hwf'.
     pose proof (Hm g Hemb) as Hemb'.
     destruct (embedded_decodable g G' Hwf' Hc Hn (eq_trans Hpd (eq_sym Hd)) Hemb') as [sw' Hsw'].
     exists sw'. split; [exact Hsw'|]. split; [exact Hemb'|].
-    apply decode_sound_pe; auto. apply plain_ops_agree; auto. exact (append_plain g' G G' HpG Hpg' Ha).
+    apply decode_sound_pe; auto. apply emb_ops_agree; auto.
   Qed.
 End HistoryFull.
